@@ -7,12 +7,16 @@ Oracle (plain Python, from the property text): joint run projected per channel =
 come first and the events follow grouped by track in scheduling order; a delayed/quantized start plays on its exact tick;
 static values are the same for every reader and are held for their stated duration.
 Further strata: harness/c07_midphase.py (callbacks changing the track list during the track phase; theorems C07_merge_cb,
-C07_snapshot_*), harness/c07_multi.py (the same static objects read from several timelines; model Sched/StaticMulti.v)."""
+C07_snapshot_*), harness/c07_multi.py (the same static objects read from several timelines; model Sched/StaticMulti.v),
+harness/c07_globals.py (globals whose values are patterns; model Sched/GlobalsPat.v).  harness/c07_coq.py: evaluation of the
+scheduler terms with shared literals (one unit grid per description)."""
 from common import *
 import sched_common as S
 import sched_gen as G
 import c07_multi as M
 import c07_midphase as MP
+import c07_globals as GP
+import c07_coq as Q
 from fractions import Fraction as F
 from math import ceil
 import itertools
@@ -20,7 +24,7 @@ import itertools
 PROP = "C07"
 META = {
  "engine": "S-scheduler",
- "text": "Coq theorems (Props/C07.v) about the executable model of Timeline.tick/Track.tick (Sched/Model.v) and of PStaticPattern/PCurrentTime/Globals (Sched/Static.v). Phase order: for every state the calls of one tick are (note-offs of all tracks, in track order) ++ (calls of the due actions, in request order) ++ (events of each track, in scheduling order); legato corollary. MERGE THEOREM, for ALL histories of ticks/schedule/update/unschedule/clear/mute/unmute/nudge/defaults, all numbers of tracks and ticks (induction over the history, simulation relation preserved by every phase of the tick incl. ticks on which a neighbour finishes, raises in tolerant mode, or is removed): the sub-sequence of calls owned by track i (by channel / callback id, ownership stated as a hypothesis on the streams) in every tick of the joint run equals the calls of that tick in the solo run in which only track i was scheduled by the same call at the same time, and the track's record and pending actions are equal in both runs. Static state: reads of a static pattern between two element boundaries return one value however many reads happen, all readers at one time see one value, a value is held for at least its duration, PGlobals returns the last value set or the default, PCurrentTime the timeline position rounded as the code rounds. Callbacks that perform timeline operations (the track list changes in the middle of the track phase): the turns are taken over the snapshot of the ids - only those ids, all of them, in order, a removed track makes no call - for every configuration; and the merge theorem holds with cb_noops weakened to: callbacks of the observed track act on it only, all other callbacks (unschedule / mute / unmute / nudge / update of other tracks, unnamed schedule calls on other channels) do not aim at it (C07_merge_cb, induction over histories; simulation preserved by ticks in which neighbours leave or arrive before or after the track's position). Several timelines in one process reading the same static / current-time / globals objects (Sched/StaticMulti.v): every read is served with the position of the reader's own timeline, for every program; a program over several timelines is a Static.v program; a second performance starts from exactly the pattern state, globals and per-timeline positions the first one left. Tied to /repo on every run by joint+solo executions on the real Timeline (recording device) compared call by call with the model in Coq, by an independent projection/phase-order oracle, by a mid-phase stratum (callbacks unscheduling / muting neighbours before or after the caller, stopping themselves, scheduling new tracks, on ticks on which neighbours are due; closed-form oracle; instances of C07_merge_cb checked in Coq) and by a several-timelines stratum (event dictionaries built once, scheduled on 2-3 timelines sequentially / alternately; oracle + comparison with Sched/StaticMulti.v).",
+ "text": "Coq theorems (Props/C07.v) about the executable model of Timeline.tick/Track.tick (Sched/Model.v) and of PStaticPattern/PCurrentTime/Globals (Sched/Static.v). Phase order: for every state the calls of one tick are (note-offs of all tracks, in track order) ++ (calls of the due actions, in request order) ++ (events of each track, in scheduling order); legato corollary. MERGE THEOREM, for ALL histories of ticks/schedule/update/unschedule/clear/mute/unmute/nudge/defaults, all numbers of tracks and ticks (induction over the history, simulation relation preserved by every phase of the tick incl. ticks on which a neighbour finishes, raises in tolerant mode, or is removed): the sub-sequence of calls owned by track i (by channel / callback id, ownership stated as a hypothesis on the streams) in every tick of the joint run equals the calls of that tick in the solo run in which only track i was scheduled by the same call at the same time, and the track's record and pending actions are equal in both runs. Static state: reads of a static pattern between two element boundaries return one value however many reads happen, all readers at one time see one value, a value is held for at least its duration, PGlobals returns the last value set or the default, PCurrentTime the timeline position rounded as the code rounds. Callbacks that perform timeline operations (the track list changes in the middle of the track phase): the turns are taken over the snapshot of the ids - only those ids, all of them, in order, a removed track makes no call - for every configuration; and the merge theorem holds with cb_noops weakened to: callbacks of the observed track act on it only, all other callbacks (unschedule / mute / unmute / nudge / update of other tracks, unnamed schedule calls on other channels) do not aim at it (C07_merge_cb, induction over histories; simulation preserved by ticks in which neighbours leave or arrive before or after the track's position). Globals whose values are patterns (Sched/GlobalsPat.v): for every program of sets and reads a read returns the default, the number or the next value of the pattern object that the LATEST set stored for the name, whatever was stored before; a set always takes effect; a shared pattern object stands at start + the number of reads that reached it. Several timelines in one process reading the same static / current-time / globals objects (Sched/StaticMulti.v): every read is served with the position of the reader's own timeline, for every program; a program over several timelines is a Static.v program; a second performance starts from exactly the pattern state, globals and per-timeline positions the first one left. Tied to /repo on every run by joint+solo executions on the real Timeline (recording device) compared call by call with the model in Coq, by an independent projection/phase-order oracle, by a mid-phase stratum (callbacks unscheduling / muting neighbours before or after the caller, stopping themselves, scheduling new tracks, on ticks on which neighbours are due; closed-form oracle; instances of C07_merge_cb checked in Coq) by a pattern-valued-globals stratum (numbers and pattern objects set over each other by setter tracks, read by several tracks; oracle + comparison with Sched/GlobalsPat.v) and by a several-timelines stratum (event dictionaries built once, scheduled on 2-3 timelines sequentially / alternately; oracle + comparison with Sched/StaticMulti.v).",
  "note": "Trusted: Coq kernel+VM; the Python harness. Modelled, not verified: float arithmetic (exact integer units in the model); how a static pattern finds its timeline (inspect.stack) - the model takes `now` as an argument, validated by the correspondence only. The merge theorem excludes, as the property does, deliberate coupling: device faults (shared call counter), callbacks that perform timeline operations AIMED AT THE OBSERVED TRACK from another track (C07_merge_cb covers all others; a victim's behaviour is judged by the mid-phase oracle and the model comparison), clear / set-defaults / named schedule inside callbacks, named replace, max_tracks, stop_when_done (a solo timeline would stop earlier), and aborted ticks (intolerant exceptions / out-of-fuel are hypotheses `all_ticks_ok`).",
 }
 
@@ -281,7 +285,13 @@ def merge_part(run, n_desc):
         for kk in range(k):
             sc, ids = scenario(desc, list(range(k)), only=kk)
             jobs.append((di, None, "solo", kk, ids)); scs.append(sc)
-    fin = [G.finalize(sc) for sc in scs]
+    # one unit grid per description (the joint run's), so that its scenarios share their stream literals
+    fin, groups = [], [di for di, _, _, _, _ in jobs]
+    first = {}
+    for j, di in enumerate(groups):
+        first.setdefault(di, j)
+    for j, sc in enumerate(scs):
+        fin.append(Q.finalize_group(G, [sc], scs[first[groups[j]]])[0])
     results = S.run_impl(run, fin, shards=14)
     flagged = set()
     solo_of = {}
@@ -349,15 +359,13 @@ def merge_part(run, n_desc):
         if len(run.cov["samples"]) < 2:
             run.sample({"tracks": k, "order": order, "ops": [o[0] if o[0] != "tick" else o for o in scs[j]["ops"]],
                         "first_observations": r["obs"][:4]})
-    bad = S.model_disagreements(run, fin, results, chunk=30)
+    bad = Q.model_disagreements_shared(run, S, fin, results, groups, target=40)
     run.cov["traces_validated_against_impl"] += len(fin) - len(bad)
-    for j in bad:
-        if j in flagged:
-            continue
+    for j in [x for x in bad if x not in flagged][:3]:
         S.report_disagreement(run, fin[j], results[j], "correspondence", "Timeline/Track")
     # the instance of the merge theorem itself: the joint history meets the theorem's hypotheses (uncoupled, hist_wf,
     # all_ticks_ok) and the theorem's solo run - Coq's [solo i 0 h] on [tl_at i] - makes the calls of the REAL solo run
-    terms, where = [], []
+    terms, where, tgroups = [], [], []
     for j, (di, order, kind, kk, ids) in enumerate(jobs):
         if kind != "joint" or j in flagged or order != list(range(len(descs[di]["tracks"]))):
             continue
@@ -371,11 +379,18 @@ def merge_part(run, n_desc):
             terms.append("merge_instance %s %s %s %s %s %s" % (
                 natlit(ids[kk2]), zlit(desc["tracks"][kk2]["chan"]), lst([natlit(m) for m in mine]), S.coq_config(fin[j]),
                 S.coq_history(fin[j]), lst([lst([S.coq_call(c) for c in calls]) for calls in dense])))
-            where.append((j, kk2))
+            where.append((j, kk2)); tgroups.append(j)
     hdr = S.HEADER + "From Isobar Require Import Sched.TimeProofs Sched.MergeProofs Props.C07.\n" + MERGE_INSTANCE
-    badi = run.coq_failing(hdr, terms, chunk=30)
+
+    def cands(i0, i1):
+        inner, outer = [], []
+        for j in dict.fromkeys(w[0] for w in where[i0:i1]):
+            a, b = Q.scenario_literals(S, fin[j])
+            inner += a; outer += b
+        return inner + outer
+    badi = Q.failing_shared(run, hdr, terms, cands, Q.bounds_by_group(tgroups, 40), name="instance")
     run.cov["merge_theorem_instances_checked"] = run.cov.get("merge_theorem_instances_checked", 0) + len(terms) - len(badi)
-    for b in badi:
+    for b in badi[:3]:
         j, kk2 = where[b]
         S.report_disagreement(run, fin[j], results[j], "merge-instance", "Timeline/Track",
                               extra={"broken": "the instance of C07_merge for this history: its hypotheses (uncoupled, hist_wf, all_ticks_ok) or the "
@@ -566,13 +581,20 @@ def static_part(run, n):
 
 
 def check(run):
-    n = 260 if run.tier == "quick" else 3000
-    merge_part(run, n)
+    import time
+    secs = run.cov.setdefault("part_seconds", {})
+
+    def part(name, f, *a):
+        t0 = time.time(); f(run, *a); secs[name] = round(time.time() - t0, 1)
+    quick = run.tier == "quick"
+    part("merge", merge_part, 260 if quick else 3000)
     # callbacks that change the set of tracks during the track phase (unschedule / mute a neighbour, stop themselves, schedule)
-    MP.midphase_part(run, 60 if run.tier == "quick" else 700)
-    static_part(run, 240 if run.tier == "quick" else 3000)
+    part("midphase", MP.midphase_part, 60 if quick else 700)
+    part("static", static_part, 240 if quick else 3000)
     # the same static / current-time / globals objects used by tracks of several timelines (one after the other, alternately)
-    M.multi_part(run, 120 if run.tier == "quick" else 1500)
+    part("several-timelines", M.multi_part, 120 if quick else 1500)
+    # globals whose values are patterns, set again over existing values, read by several tracks
+    part("pattern-globals", GP.globals_part, 120 if quick else 1500)
     run.cov["rule"] = ("one case = one run on isobar's Timeline: a joint run of 1-6 tracks on distinct channels (random offsets/durations on a "
                        "common grid so that events coincide, scheduling-order permutations for <= 4 tracks, neighbours that finish / raise in "
                        "tolerant mode / are unscheduled) or the solo run of one of its tracks; non-trivial = joint run of >= 2 tracks with at "
@@ -582,6 +604,8 @@ def check(run):
 def replay(run, doc):
     if doc.get("part") == "multi":
         return M.replay_multi(run, doc)
+    if doc.get("part") == "gpat":
+        return GP.replay_gpat(run, doc)
     if doc.get("part") == "midphase":
         return MP.replay_midphase(run, doc)
     if doc.get("part") == "static":
